@@ -1,0 +1,20 @@
+//go:build verif
+
+// Contracts for deductive verification (comment-only; read by /verif/govc, never compiled into the product).
+
+package core
+
+// C01: a transition requested through the API that fails leaves the environment in ERROR: GO_ERROR is attempted and,
+// if that is refused too, the state is forced.
+//@ func (m *RpcServer) ControlEnvironment(cxt context.Context, req *pb.ControlEnvironmentRequest) (reply *pb.ControlEnvironmentReply, err error)
+//@   property C01
+//@   ghostvar tries int = 0
+//@   ghostvar firstErr bool = false
+//@   ghostvar lastErr bool = false
+//@   ghostvar forced bool = false
+//@   on call (*environment.Environment).TryTransition : tries = tries + 1
+//@   on aftercall (*environment.Environment).TryTransition : lastErr = (result != nil) ; firstErr = if tries == 1 then (result != nil) else firstErr
+//@   on call (*fsm.FSM).SetState : assert tries == 2 && lastErr && arg1 == "ERROR" ; forced = true
+//@   ensures tries <= 2
+//@   ensures tries >= 1 && firstErr ==> tries == 2 && (!lastErr || forced)
+//@   ensures tries >= 1 && !firstErr ==> tries == 1
